@@ -600,6 +600,12 @@ func runCmd(c *Cmd) {
 			e.Srcs = []string{"ref"}
 			emit(e)
 		}
+		if hasMust(pi, c.Root) {
+			begin(c.Cid, 9, &Event{Ev: "dec", API: "MustUnmarshalBebop", Srcs: []string{"ref"}})
+			e := decodeEvent(pi, c, 9, "MustUnmarshalBebop", ref)
+			e.Srcs = []string{"ref"}
+			emit(e)
+		}
 		// and DecodeBebop under fragmenting readers (the skip of unknown fields must not depend on full reads)
 		for i, pat := range [][]int{{1}, {2}, {3, 1}, {7, 2}} {
 			m := 2 + i
